@@ -514,23 +514,13 @@ Section Purge.
     - rewrite purge_committed_ids. apply NoDup_filter, N.
   Qed.
 
-  Hypothesis K2 : c19_id_needs_escape t = false.
-
-  Lemma purge_no_escape : c19_id_needs_escape (remove_at t p) = false.
-  Proof.
-    unfold c19_id_needs_escape in *. rewrite purge_committed_ids.
-    destruct (existsb needs_escape (filter neq_i (committed_ids t))) eqn:E; [|reflexivity].
-    apply existsb_exists in E as (x & Hx & Ex). apply filter_In in Hx as [Hx _].
-    assert (existsb needs_escape (committed_ids t) = true) by (apply existsb_exists; eauto). congruence.
-  Qed.
-
   Lemma purge_iter id :
     iter_items (Some (bytes_eqb id)) (remove_at t p) = flat_map (hits id) (walk (remove_at t p)).
   Proof.
     unfold iter_items. apply flat_map_ext_in. intros r Hr. rewrite purge_walk in Hr.
     apply filter_In in Hr as [Hr _]. destruct W as [Wf N]. rewrite Forall_forall in Wf.
     destruct (Wf r Hr) as [j Hj]. pose proof (wf_root_id j r Hj) as Ej.
-    rewrite (wf_root_some _ j r Hj (no_escape_in t j K2 (in_committed t r j Hr Ej))).
+    rewrite (wf_root_some _ j r Hj).
     unfold hits. rewrite Ej. cbn [flat_map]. now rewrite app_nil_r.
   Qed.
 
@@ -577,15 +567,15 @@ Proof.
 Qed.
 
 Lemma get_inventory_nolayout c t i :
-  Forall wf_root (spec_roots t) -> names_unique t = true -> c19_id_needs_escape t = false ->
+  Forall wf_root (spec_roots t) -> names_unique t = true ->
   cache_sound c t = true ->
   (In i (committed_ids t) -> exists p, fst (get_inventory None c t i) = Found p i) /\
   (~ In i (committed_ids t) -> fst (get_inventory None c t i) = NotFound).
 Proof.
-  intros W U K S. unfold get_inventory. destruct (cache_get c i) as [p|] eqn:G.
+  intros W U S. unfold get_inventory. destruct (cache_get c i) as [p|] eqn:G.
   - destruct (rooted_lookup t i p U (cache_sound_get c t i p S G)) as [A B]. cbn [fst]. split; [eauto|].
     intros N. contradiction.
-  - destruct (scan_spec t i W K) as (_ & A & B & _). split.
+  - destruct (scan_spec t i W) as (_ & A & B & _). split.
     + intros H. destruct (A H) as [p ->]. cbn [fst]. eauto.
     + intros H. now rewrite (B H).
 Qed.
@@ -605,7 +595,7 @@ Proof.
 Qed.
 
 Lemma purged_not_found_lemma gm t p ces i :
-  WellFormedRepo t -> names_unique t = true -> c19_id_needs_escape t = false ->
+  WellFormedRepo t -> names_unique t = true ->
   In (p, ces) (walk t) -> In i (root_id (p, ces)) ->
   Permutation (listed_ids (list_objects gm (remove_at t p) None))
               (filter (fun j => negb (bytes_eqb j i)) (committed_ids t)) /\
@@ -613,11 +603,11 @@ Lemma purged_not_found_lemma gm t p ces i :
   (forall j, j <> i -> In j (committed_ids t) -> exists p', scan_for_inventory (remove_at t p) j = Found p' j) /\
   get_inventory_by_path (remove_at t p) i p = NotFound.
 Proof.
-  intros W U K2 Hin Hi.
+  intros W U Hin Hi.
   split; [|split; [|split]].
   - rewrite (purged_listing t p ces i W U Hin Hi gm). apply Permutation_refl.
-  - apply (purged_scan t p ces i W U Hin Hi K2).
-  - apply (purged_scan t p ces i W U Hin Hi K2).
+  - apply (purged_scan t p ces i W U Hin Hi).
+  - apply (purged_scan t p ces i W U Hin Hi).
   - apply get_by_path_free, lookup_removed.
     rewrite walk_is_spec in Hin. apply (walk_gen_paths_nonempty false _ (p, ces) Hin).
 Qed.
@@ -630,7 +620,7 @@ Lemma staged_listing_exact_lemma gm s :
 Proof. unfold list_staged_objects. apply listing_exact. Qed.
 
 Lemma staged_listing_glob_lemma gm s g :
-  WellFormedRepo s -> c19_id_needs_escape s = false ->
+  WellFormedRepo s ->
   Permutation (listed_ids (list_staged_objects gm s (Some g))) (filter (gm g) (committed_ids s)) /\
   listed_errors (list_staged_objects gm s (Some g)) = [].
 Proof. unfold list_staged_objects. apply listing_glob_lemma. Qed.
